@@ -145,7 +145,9 @@ class C04(Check):
 
     def jobs_for(self, rng, case):
         prog = gen.prog_text(case["ops"])
-        base = {"prog": prog, "lazy": case["lazy"], "maxtri": 150000 if case["arm"] == "big" else 60000}
+        # hook H5 (BatchUnion chunk size) is a configuration knob: the same value for the reference and the parallel runs
+        mus = rng.choice([0, 0, 0, 3, 5]) if case["arm"] in ("small", "lazy", "lattice", "medium") else 0
+        base = {"prog": prog, "lazy": case["lazy"], "maxtri": 150000 if case["arm"] == "big" else 60000, "mus": mus}
         jobs = [{"flavour": "ser", "kind": "prog", "args": dict(base, thr=case["thr"]), "timeout": 600, "case": case, "role": "ref"}]
         for si in range(case["nsched"]):
             pa = self.par_args(rng, case["thr"])
@@ -216,7 +218,7 @@ class C04(Check):
                         key = div_key(op, field)
                         replay = {"property": "C04", "program": gen.prog_text(case["ops"]), "lazy": case["lazy"],
                                   "par_args": {k: j["args"][k] for k in ("W", "stay", "own", "seed", "thr")},
-                                  "maxtri": j["args"]["maxtri"], "arm": case["arm"]}
+                                  "maxtri": j["args"]["maxtri"], "arm": case["arm"], "mus": j["args"].get("mus", 0)}
                         desc = "step %d (%s): field %s differs between serial build and parallel build under schedule seed=%s W=%s" % (
                             step, op, field, j["args"]["seed"], j["args"]["W"])
                         if j["args"]["thr"] != 1 and not simdrv.match_known("C04", key):
@@ -339,7 +341,7 @@ class C04(Check):
             if r["ok"]:
                 return None, ""
             return {"clause": "crash_" + simdrv.classify_crash(r), "flavour": replay["flavour"]}, "crash"
-        base = {"prog": replay["program"], "lazy": replay.get("lazy", 0), "maxtri": replay.get("maxtri", 60000)}
+        base = {"prog": replay["program"], "lazy": replay.get("lazy", 0), "maxtri": replay.get("maxtri", 60000), "mus": replay.get("mus", 0)}
         ref = self.run_job({"flavour": "ser", "kind": "prog", "args": dict(base, thr=replay["par_args"]["thr"]), "timeout": 900}, fresh)
         par = self.run_job({"flavour": "par", "kind": "prog", "args": dict(base, **replay["par_args"]), "timeout": 900}, fresh)
         if not ref["ok"] or not par["ok"]:
@@ -394,7 +396,7 @@ class C04(Check):
 
     def minimise_schedule(self, rep, want, budget=24):
         """Turn the seeded schedule into an explicit deviation list and ddmin it."""
-        base = {"prog": rep["program"], "lazy": rep.get("lazy", 0), "maxtri": rep.get("maxtri", 60000)}
+        base = {"prog": rep["program"], "lazy": rep.get("lazy", 0), "maxtri": rep.get("maxtri", 60000), "mus": rep.get("mus", 0)}
         r = self.run_job({"flavour": "par", "kind": "prog", "args": dict(base, trace=1, **rep["par_args"]), "timeout": 900})
         if not r["ok"]:
             return rep
